@@ -436,6 +436,22 @@ impl Prop for C18 {
                 return CaseResult { discs: k.discs, nontrivial: true, outcome: "unparsable".into(), skipped: None };
             }
         };
+        // a neighbour module with the opposite EXTENSIBILITY setting, generated before / after this one, must not matter
+        // (one backend object generates all modules): namespace M as compiled alone == namespace M of the joint compilation
+        if c.ty.depth() <= 2 && c.others.len() <= 1 {
+            for nb_name in ["A-Nb", "Z-Nb"] {
+                let nb = format!("{nb_name} DEFINITIONS AUTOMATIC TAGS{} ::= BEGIN\nNb ::= SEQUENCE {{ n BOOLEAN }}\nNc ::= CHOICE {{ p NULL, q SET {{ r BOOLEAN }} }}\nEND\n", if c.implied { "" } else { " EXTENSIBILITY IMPLIED" });
+                if let Outcome::Ok { generated, .. } = compile_ts(&[src.clone(), nb.clone()]) {
+                    let same = match parse_namespace(&generated, "M") {
+                        Ok(d2) => format!("{d2:?}") == format!("{decls:?}"),
+                        Err(_) => false,
+                    };
+                    if !same {
+                        k.d(format!("ts|neighbour|self-implied={}|neighbour={}", c.implied, if nb_name.starts_with('A') { "before" } else { "after" }), format!("namespace M differs when compiled next to\n{nb}\n--- joint ---\n{generated}"));
+                    }
+                }
+            }
+        }
         let names: Vec<String> = decls.iter().map(|d| match d { Decl::Type(n, _) | Decl::Enum(n, _) | Decl::Const(n) => n.clone() }).collect();
         k.declared = names.clone();
         let mut expected: Vec<(String, &Ty)> = vec![("A".to_string(), &c.ty)];
